@@ -421,6 +421,93 @@ def run_tables(block, ctx):
     ctx.sample(block[0])
 
 
+# -- every table term at its own zero crossing ----------------------------------------------------------
+
+def crossing_probes(B, C, t_near):
+    """Float JDEs around the zero of cos(B + C t) nearest to t_near (millennia from J2000): the float
+    closest to the zero among +-8 ulps, and its neighbours at +-1 and +-3 ulps."""
+    k = round((B + C * t_near - math.pi / 2.0) / math.pi)
+    tz = (math.pi / 2.0 + k * math.pi - B) / C
+    j = J2000 + 365250.0 * tz
+    cand = [j]
+    up = dn = j
+    for _ in range(8):
+        up = math.nextafter(up, math.inf)
+        dn = math.nextafter(dn, -math.inf)
+        cand += [up, dn]
+    best = min(cand, key=lambda x: abs(math.cos(B + C * ((x - J2000) / 365250.0))))
+    out = [best]
+    for n in (1, 3):
+        u = d = best
+        for _ in range(n):
+            u = math.nextafter(u, math.inf)
+            d = math.nextafter(d, -math.inf)
+        out += [u, d]
+    return out
+
+
+def check_term(case):
+    """At the instant where ONE term of a series passes through zero (so that its value, the partial sum
+    or a one-term series is ~0) the evaluator must still equal the plain sum of all terms."""
+    nm, coord, order, idx, era = case["planet"], case["coord"], case["order"], case["term"], case["era"]
+    M, P = mod(nm)
+    tab = {"L": M.VSOP87_L, "B": M.VSOP87_B, "R": M.VSOP87_R}[coord]
+    A, B, C = tab[order][idx]
+    out = []
+    for j in crossing_probes(B, C, (era - 2000.0) / 1000.0):
+        if not (y2jde(-2000) < j < y2jde(4000)):
+            continue
+        e = Epoch(j)
+        t = (e.jde() - J2000) / 365250.0
+        try:
+            v = vsop_pos(e, M.VSOP87_L, M.VSOP87_B, M.VSOP87_R)
+        except Exception as ex:
+            out.append(("exception", "vsop_pos raised %r at JDE %r" % (ex, j), None))
+            continue
+        d = direct_sum(tab, t)
+        if coord == "L":
+            two_pi = Fraction(math.pi) * 2
+            dd = (Fraction(v[0].rad()) - d) % two_pi
+            dev = float(min(dd, two_pi - dd))
+            tol = 1e-11 + 1e-14 * abs(float(d))
+        elif coord == "B":
+            dev, tol = abs(float(Fraction(v[1].rad()) - d)), 1e-11
+        else:
+            dev, tol = abs(float(Fraction(v[2]) - d)), 1e-11
+        if dev > tol:
+            out.append(("evaluator_" + coord, "%s %s%d term %d (A=%r) passes through zero at JDE %r: vsop_pos differs from "
+                        "direct summation by %.3g" % (nm, coord, order, idx, A, j, dev), dev))
+    return out
+
+
+def term_cases(tier):
+    cases = []
+    for nm in NAMES:
+        M, P = mod(nm)
+        for coord, tab in (("L", M.VSOP87_L), ("B", M.VSOP87_B), ("R", M.VSOP87_R)):
+            for order, ser in enumerate(tab):
+                if tier != "thorough" and len(ser) > 60:
+                    continue            # quick: the short (high-order) series, where one term is most of the sum
+                for idx, (A, B, C) in enumerate(ser):
+                    if C == 0.0 or A == 0.0:
+                        continue
+                    for era in ((-1900.0, 2000.0, 3900.0) if tier == "thorough" else (2000.0, -1900.0)):
+                        cases.append({"planet": nm, "coord": coord, "order": order, "term": idx, "era": era})
+    return cases
+
+
+def run_terms(block, ctx):
+    for case in block:
+        ctx.evals += 5
+        ctx.nt_count += 1
+        for site, msg, dev in check_term(case):
+            ctx.viol(case, msg, dev=dev, site=site)
+            ctx.maxi(site, dev)
+        ctx.outcome((case["planet"], case["coord"], case["order"]))
+    ctx.obs(block[0], block[-1])
+    ctx.sample(block[0])
+
+
 def epoch_lattice(tier):
     if tier == "thorough":
         j0, j1 = y2jde(-2000) + 1.0, y2jde(4000) - 2.0
@@ -460,6 +547,8 @@ def clauses(tier):
         Clause("orbit_walk", walks, run_walk, replay_walk, floor=1000),
         Clause("one_second", chunks(secs, 16), run_seconds,
                lambda c: [m for _, m, _ in check_second(c)], floor=100),
+        Clause("term_zero_crossings", chunks(term_cases(tier), 64), run_terms,
+               lambda c: [m for _, m, _ in check_term(c)], floor=300),
         Clause("tables", [[{"planet": nm} for nm in NAMES]], run_tables,
                lambda c: [m for _, m, _ in check_tables(c)], floor=8),
     ]
